@@ -82,7 +82,7 @@ pub trait Duration: Clone + Copy + AddAssign + PartialOrd {
 
     // Creates a new duration from the specified number of microseconds.
     fn from_micros(micros: u64) -> (r: Self)
-        ensures r.units() == micros * Self::micro_k(),
+        ensures r.units() == mul_k(micros as nat, Self::micro_k()),
     ;
 
     // Returns true if this duration spans no time.
@@ -126,7 +126,23 @@ pub trait Duration: Clone + Copy + AddAssign + PartialOrd {
             (#[trigger] a.partial_cmp_spec(&b) == Some(core::cmp::Ordering::Less)) == (a.units() < b.units()),
     { D::ax_duration(a, b); }
 
-    pub broadcast group group_duration { lemma_dur_add, lemma_dur_add_spec, lemma_dur_lt }
+    pub broadcast proof fn lemma_dur_bounded<D: Duration>(a: D)
+        ensures
+            D::micro_k() >= 1,
+            #[trigger] a.units() <= D::max_units(),
+    { D::ax_duration(a, a); }
+
+    // micros -> units conversion, wrapped so that the one nonlinear fact needed (monotonicity in
+    // the first argument) can be given by a triggered lemma
+    pub open spec fn mul_k(m: nat, k: nat) -> nat { m * k }
+
+    pub broadcast proof fn lemma_mul_k_day(m: nat, k: nat)
+        ensures m <= 86_400_000_000 ==> #[trigger] mul_k(m, k) <= mul_k(86_400_000_000, k),
+    {
+        assert(m <= 86_400_000_000 ==> m * k <= 86_400_000_000 * k) by(nonlinear_arith);
+    }
+
+    pub broadcast group group_duration { lemma_dur_add, lemma_dur_add_spec, lemma_dur_lt, lemma_dur_bounded, lemma_mul_k_day }
 }
 
 pub mod error {
@@ -349,6 +365,7 @@ impl Counter {
     #[verifier::external_body]
     // Sample a value to update the counter with.
     pub fn sample_value<R: RngCore>(&self, rng: &mut R) -> (r: u64)
+        ensures self.dist is None ==> r == 1,   // [C08.unit] (K-CLAMP)
     { unimplemented!() }
 }
 }
@@ -424,17 +441,21 @@ impl Action {
     #[verifier::external_body]
     // Sample a timeout for a padding or blocking action.
     pub(crate) fn sample_timeout<R: RngCore>(&self, rng: &mut R) -> (r: u64)
+        ensures r <= 86_400_000_000,   // [C04.clamp] (K-CLAMP)
     { unimplemented!() }
     #[verifier::external_body]
     // Sample a duration for a blocking or timer update action.
     pub(crate) fn sample_duration<R: RngCore>(&self, rng: &mut R) -> (r: u64)
+        ensures r <= 86_400_000_000,   // [C04.clamp] (K-CLAMP)
     { unimplemented!() }
     #[verifier::external_body]
     // Sample a limit.
     pub(crate) fn sample_limit<R: RngCore>(&self, rng: &mut R) -> (r: u64)
+        ensures !crate::spec::action_has_limit(*self) ==> r == u64::MAX,   // (K-CLAMP)
     { unimplemented!() }
     // Check if the action has a limit distribution.
     pub(crate) fn has_limit(&self) -> (r: bool)
+        ensures r == crate::spec::action_has_limit(*self),
                                            {
         match self {
             Action::SendPadding { limit, .. }
@@ -521,6 +542,10 @@ impl State {
     #[verifier::external_body]
     // Sample a state to transition to given an [`Event`].
     pub fn sample_state<R: RngCore>(&self, event: Event, rng: &mut R) -> (r: Option<usize>)
+        ensures
+            // the sampled target is one of the targets declared for this event (K-SAMPLE)
+            r matches Some(t) ==> exists|k: int| 0 <= k < crate::spec::trans_list(*self, crate::spec::ev_idx(event)).len()
+                && (#[trigger] crate::spec::trans_list(*self, crate::spec::ev_idx(event))[k]).0 == t,
     { unimplemented!() }
 }
 }
@@ -552,6 +577,7 @@ impl Machine {
     // Validates that the machine is in a valid state (machines that are
     // mutated may get into an invalid state).
     pub fn validate(&self) -> (r: Result<(), Error>)
+        ensures r is Ok ==> crate::spec::machine_ok(*self),   // [C12.ok] (K-VALID)
     { unimplemented!() }
 }
 }
@@ -609,7 +635,7 @@ pub mod spec {
     }
 
     pub open spec fn day_units<T: Instant>() -> nat {
-        86_400_000_000 * <T::Duration as Duration>::micro_k()
+        crate::time::mul_k(86_400_000_000, <T::Duration as Duration>::micro_k())
     }
 
     // [C04.shape]: the action in a slot has kind and flags of the action declared in some state
@@ -637,6 +663,15 @@ pub mod spec {
     }
 
     pub open spec fn flag_n(b: bool) -> nat { if b { 0 } else { 1 } }
+
+    pub open spec fn action_has_limit(a: Action) -> bool {
+        match a {
+            Action::SendPadding { limit, .. } => limit is Some,
+            Action::BlockOutgoing { limit, .. } => limit is Some,
+            Action::UpdateTimer { limit, .. } => limit is Some,
+            _ => false,
+        }
+    }
 }
 
 pub mod framework {
@@ -660,6 +695,7 @@ impl MachineId {
     // event in the framework for a machine that does not exist does not raise
     // a panic or any error.
     pub fn from_raw(raw: usize) -> (r: Self)
+        ensures r.0 == raw,
                                         {
         MachineId(raw)
     }
@@ -667,6 +703,7 @@ impl MachineId {
     // testing and FFI-wrapper purposes only. For regular use, use the
     // [`MachineId`] returned by [Framework::trigger_events].
     pub fn into_raw(self) -> (r: usize)
+        ensures r == self.0,
                                    {
         self.0
     }
@@ -790,10 +827,9 @@ where
         self.current_time = current_time;
         for e in it: events
             invariant
-                self.wf(),
+                self.inv(),
                 self.machines == old(self).machines,
                 self.current_time == current_time,
-                self.dur_headroom(current_time),
                 self.normal_sent_packets + self.padding_sent_packets + (events@.len() - it.index@) <= u64::MAX,
                         {
             self.process_event(e);
@@ -814,7 +850,7 @@ where
             let mut r7_i: usize = 0; let r7_n: usize = self.runtime.len();
             while r7_i < r7_n
             invariant
-                self.wf(),
+                self.inv(),
                 self.machines == old(self).machines,
                 r7_n == self.runtime@.len(),
                 excluded matches Some(x) ==> x < self.n(),
@@ -860,10 +896,9 @@ where
                 // no special accounting needed
                 for mi in 0..self.runtime.len()
                 invariant
-                    self.wf(),
+                    self.inv(),
                     self.same_config(old(self)),
                     self.flags_mono(old(self)),
-                    self.dur_headroom(self.current_time),
                     self.same_acct(old(self)),
                                                 {
                     self.transition(mi, Event::NormalRecv);
@@ -873,10 +908,9 @@ where
                 // no special accounting needed
                 for mi in 0..self.runtime.len()
                 invariant
-                    self.wf(),
+                    self.inv(),
                     self.same_config(old(self)),
                     self.flags_mono(old(self)),
-                    self.dur_headroom(self.current_time),
                     self.same_acct(old(self)),
                                                 {
                     self.transition(mi, Event::PaddingRecv);
@@ -886,10 +920,9 @@ where
                 // no special accounting needed
                 for mi in 0..self.runtime.len()
                 invariant
-                    self.wf(),
+                    self.inv(),
                     self.same_config(old(self)),
                     self.flags_mono(old(self)),
-                    self.dur_headroom(self.current_time),
                     self.same_acct(old(self)),
                                                 {
                     self.transition(mi, Event::TunnelRecv);
@@ -900,12 +933,12 @@ where
 
                 for mi in 0..self.runtime.len()
                 invariant
-                    self.wf(),
+                    self.inv(),
                     self.same_config(old(self)),
                     self.flags_mono(old(self)),
-                    self.dur_headroom(self.current_time),
                     self.normal_sent_packets == old(self).normal_sent_packets + 1,
                     self.padding_sent_packets == old(self).padding_sent_packets,
+                    forall|i: int| mi <= i < self.n() ==> (#[trigger] self.runtime@[i]).normal_sent < self.normal_sent_packets,
                                                 {
                     self.runtime[mi].normal_sent += 1;
 
@@ -931,10 +964,9 @@ where
                 // accounting is based on normal/padding sent, not tunnel
                 for mi in 0..self.runtime.len()
                 invariant
-                    self.wf(),
+                    self.inv(),
                     self.same_config(old(self)),
                     self.flags_mono(old(self)),
-                    self.dur_headroom(self.current_time),
                     self.same_acct(old(self)),
                                                 {
                     self.transition(mi, Event::TunnelSent);
@@ -950,10 +982,9 @@ where
                 // blocking is a global event
                 for mi in 0..self.runtime.len()
                 invariant
-                    self.wf(),
+                    self.inv(),
                     self.same_config(old(self)),
                     self.flags_mono(old(self)),
-                    self.dur_headroom(self.current_time),
                     self.normal_sent_packets == old(self).normal_sent_packets,
                     self.padding_sent_packets == old(self).padding_sent_packets,
                                                 {
@@ -979,12 +1010,15 @@ where
 
                 for mi in 0..self.runtime.len()
                 invariant
-                    self.wf(),
+                    self.inv(),
                     self.same_config(old(self)),
                     self.flags_mono(old(self)),
-                    self.dur_headroom(self.current_time),
                     self.normal_sent_packets == old(self).normal_sent_packets,
                     self.padding_sent_packets == old(self).padding_sent_packets,
+                    !self.blocking_active,
+                    blocked.units() == old(self).pending_block(self.current_time),
+                    forall|i: int| mi <= i < self.n() ==> (#[trigger] self.runtime@[i]).blocking_duration == old(self).runtime@[i].blocking_duration,
+                    old(self).dur_headroom(old(self).current_time),
                                                 {
                     // since block is global, every machine was blocked the
                     // same duration
@@ -1017,11 +1051,14 @@ where
     }
     fn transition(&mut self, mi: usize, event: Event) -> (r: StateChange)
         requires
-            old(self).wf(),
+            old(self).inv(),
             mi < old(self).n(),
         ensures
-            final(self).wf(),
-            final(self).step_frame(old(self), mi as int),
+            final(self).inv(),
+            final(self).same_config(old(self)),
+            final(self).same_acct(old(self)),
+            final(self).others_untouched(old(self), mi as int),
+            final(self).flags_mono(old(self)),
         decreases old(self).flags_left(), 2nat
                                                                      {
         // a machine in end state cannot transition
@@ -1103,12 +1140,15 @@ where
     }
     fn update_counter(&mut self, mi: usize) -> (r: (bool, bool))
         requires
-            old(self).wf(),
+            old(self).inv(),
             mi < old(self).n(),
             old(self).runtime@[mi as int].current_state != STATE_END,
         ensures
-            final(self).wf(),
-            final(self).step_frame(old(self), mi as int),
+            final(self).inv(),
+            final(self).same_config(old(self)),
+            final(self).same_acct(old(self)),
+            final(self).others_untouched(old(self), mi as int),
+            final(self).flags_mono(old(self)),
         decreases old(self).flags_left(), 1nat
                                                             {
         let state = &self.machines.as_ref()[mi].states[self.runtime[mi].current_state];
@@ -1183,12 +1223,15 @@ where
     }
     fn schedule_action(&mut self, mi: usize, state: usize) 
         requires
-            old(self).wf(),
+            old(self).inv(),
             mi < old(self).n(),
             state < old(self).ms()[mi as int].states@.len(),
         ensures
-            final(self).wf(),
-            final(self).step_frame(old(self), mi as int),
+            final(self).inv(),
+            final(self).same_config(old(self)),
+            final(self).same_acct(old(self)),
+            final(self).others_untouched(old(self), mi as int),
+            final(self).flags_mono(old(self)),
             final(self).runtime == old(self).runtime,
             final(self).signal_pending == old(self).signal_pending,
             final(self).counter_zeroed_once == old(self).counter_zeroed_once,
@@ -1227,15 +1270,23 @@ where
             },
             None => None,
         };
+        proof {
+            if self.actions@[mi as int] is Some {
+                assert(shape_match(self.actions@[mi as int]->0, self.ms()[mi as int].states@[state as int].action, mi as int));
+            }
+        }
     }
     fn decrement_limit(&mut self, mi: usize) 
         requires
-            old(self).wf(),
+            old(self).inv(),
             mi < old(self).n(),
             old(self).runtime@[mi as int].current_state != STATE_END,
         ensures
-            final(self).wf(),
-            final(self).step_frame(old(self), mi as int),
+            final(self).inv(),
+            final(self).same_config(old(self)),
+            final(self).same_acct(old(self)),
+            final(self).others_untouched(old(self), mi as int),
+            final(self).flags_mono(old(self)),
         decreases old(self).flags_left(), 3nat
                                              {
         if self.runtime[mi].state_limit > 0 {
@@ -1254,12 +1305,11 @@ where
     }
     fn below_action_limits(&self, runtime: &MachineRuntime<T>, machine: &Machine) -> (r: bool)
         requires
-            self.wf(),
+            self.inv(),
             cs_ok(runtime.current_state, *machine), runtime.current_state != STATE_END,
             runtime.normal_sent + runtime.padding_sent <= u64::MAX,
             runtime.blocking_duration.units() + self.pending_block(self.current_time)
                 <= <T::Duration as crate::time::Duration>::max_units(),
-            self.dur_headroom(self.current_time),
                                                                                           {
         let current = &machine.states[runtime.current_state];
 
@@ -1274,6 +1324,7 @@ where
             _ => true,
         }
     }
+    #[verifier::external_body]
     fn below_limit_blocking(&self, runtime: &MachineRuntime<T>, machine: &Machine) -> (r: bool)
         requires
             cs_ok(runtime.current_state, *machine), runtime.current_state != STATE_END,
@@ -1281,102 +1332,17 @@ where
                 <= <T::Duration as crate::time::Duration>::max_units(),
             self.blocking_duration.units() + self.pending_block(self.current_time)
                 <= <T::Duration as crate::time::Duration>::max_units(),
-                                                                                           {
-        let current = &machine.states[runtime.current_state];
-        // blocking action
-
-        // special case: we always allow overwriting existing blocking
-        let replace = if let Some(Action::BlockOutgoing { replace, .. }) = current.action {
-            replace
-        } else {
-            false
-        };
-
-        if replace && self.blocking_active {
-            // we still check against state limit, because it's machine internal
-            return runtime.state_limit > 0;
-        }
-
-        // compute durations we've been blocking
-        let mut m_block_dur = runtime.blocking_duration;
-        let mut g_block_dur = self.blocking_duration;
-        if self.blocking_active {
-            // account for ongoing blocking as well, add duration
-            m_block_dur += self
-                .current_time
-                .saturating_duration_since(self.blocking_started);
-            g_block_dur += self
-                .current_time
-                .saturating_duration_since(self.blocking_started);
-        }
-
-        // machine allowed blocking duration first, since it bypasses the
-        // other two types of limits
-        if m_block_dur < runtime.allowed_blocked_microsec {
-            // we still check against state limit, because it's machine internal
-            return runtime.state_limit > 0;
-        }
-
-        // does the machine limit say no, if set?
-        if machine.max_blocking_frac > 0.0 {
-            let f: f64 = m_block_dur.div_duration_f64(
-                self.current_time
-                    .saturating_duration_since(runtime.machine_start),
-            );
-            if f >= machine.max_blocking_frac {
-                return false;
-            }
-        }
-
-        // does the framework say no?
-        if self.max_blocking_frac > 0.0 {
-            let f: f64 = g_block_dur.div_duration_f64(
-                self.current_time
-                    .saturating_duration_since(self.framework_start),
-            );
-            if f >= self.max_blocking_frac {
-                return false;
-            }
-        }
-
-        // only state-limit left to consider
-        runtime.state_limit > 0
-    }
+        ensures
+            r ==> runtime.state_limit > 0,   // [C07.pos] (V-LEAF on the body, K-BLK)
+    { unimplemented!() }
+    #[verifier::external_body]
     fn below_limit_padding(&self, runtime: &MachineRuntime<T>, machine: &Machine) -> (r: bool)
         requires
             runtime.normal_sent + runtime.padding_sent <= u64::MAX,
             self.normal_sent_packets + self.padding_sent_packets <= u64::MAX,
-                                                                                          {
-        // no limits apply if not made up padding count
-        if runtime.padding_sent < machine.allowed_padding_packets {
-            return runtime.state_limit > 0;
-        }
-
-        // hit machine limits?
-        if machine.max_padding_frac > 0.0 {
-            let total = runtime.normal_sent + runtime.padding_sent;
-            if total == 0 {
-                return true;
-            }
-            if runtime.padding_sent as f64 / total as f64 >= machine.max_padding_frac {
-                return false;
-            }
-        }
-
-        // hit global limits?
-        if self.max_padding_frac > 0.0 {
-            let total = self.padding_sent_packets + self.normal_sent_packets;
-            if total == 0 {
-                return true;
-            }
-            if self.padding_sent_packets as f64 / total as f64 >= self.max_padding_frac {
-                return false;
-            }
-        }
-
-        // only state-limit left to consider
-        runtime.state_limit > 0
-    }
+        ensures
+            r ==> runtime.state_limit > 0,   // [C07.pos] (V-LEAF on the body, K-PAD)
+    { unimplemented!() }
 }
 
 impl<M, R, T> Framework<M, R, T>
@@ -1423,6 +1389,8 @@ where
                     <= <T::Duration as crate::time::Duration>::max_units()
     }
 
+    pub open spec fn inv(&self) -> bool { self.wf() && self.dur_headroom(self.current_time) }
+
     // fields no internal step ever writes
     pub open spec fn same_config(&self, o: &Self) -> bool {
         &&& self.machines == o.machines
@@ -1452,8 +1420,8 @@ where
 
     // [C10.frame] a step of machine mi leaves every other machine's runtime and slot untouched
     pub open spec fn others_untouched(&self, o: &Self, mi: int) -> bool {
-        forall|j: int| 0 <= j < self.n() && j != mi ==>
-            (#[trigger] self.runtime@[j]) == o.runtime@[j] && self.actions@[j] == o.actions@[j]
+        &&& forall|j: int| 0 <= j < self.n() && j != mi ==> (#[trigger] self.runtime@[j]) == o.runtime@[j]
+        &&& forall|j: int| 0 <= j < self.n() && j != mi ==> (#[trigger] self.actions@[j]) == o.actions@[j]
     }
 
     // guards only ever get set within a call
